@@ -30,7 +30,11 @@ pub struct Case {
 }
 
 fn strategy() -> BoxedStrategy<Case> {
-  (tree(GenCfg::positional()), vec((0u8..3u8, 0u8..OPS.len() as u8), 1..=10))
+  // No CachedSource beneath a ReplaceSource inside the wrapped tree: a nested cache warms up
+  // during the history, its replay coarsens chunks, and a ReplaceSource above cuts by chunk,
+  // so the wrapped source itself answers differently before and after (see DESIGN.md 1.5 rule 1);
+  // a never-cached twin cannot be the oracle for such trees.
+  (tree(GenCfg { cached_under_replace: false, ..GenCfg::positional() }), vec((0u8..3u8, 0u8..OPS.len() as u8), 1..=10))
     .prop_map(|(inner, ops)| Case { inner, ops })
     .boxed()
 }
@@ -79,7 +83,7 @@ impl Prop for C10 {
      by hash of the case JSON".into()
   }
   fn legs(&self, _tier: Tier) -> Vec<Leg<Case>> {
-    vec![Leg { name: "histories", source: Cases::Generated(Box::new(strategy), 60_000, 2_000_000) }]
+    vec![Leg { name: "histories", source: Cases::Generated(Box::new(strategy), 400_000, 5_000_000) }]
   }
   fn check(&self, case: &Case) -> CheckResult {
     let inner = &case.inner;
